@@ -37,11 +37,17 @@ BAD_PATTERNS = [
     "^\\\\b$", "^a\\\\Z", "^\\\\1$", "^(a)\\\\1$", "^a{2}{3}$", "^+$", "^?$", "^\\n$", "^\\ud800$",
 ]
 
+# patterns ending in / containing raw line breaks, huge repetition counts, inline flags, look-ahead
+BAD_PATTERNS += ["^a$\\n", "^a\\n$", "(\\n", "^a{4294967295}$", "^a{4294967296}$", "^a{99999999999999999999}$",
+                 "^a{1,4294967295}$", "^a{65536}$", "^\\\\x00$", "^[\\\\x00-\\\\x1f]$", "^(?i)a$", "^a(?=b)$", "^(?#c)a$"]
+
 TYPE_ANNOS = ["Optional[Optional[int]]", "List[Optional[int]]", "Set[int]", "Dict[str, int]", "Tuple[int, ...]",
               "Optional[int, str]", "Optional", "List", "List[List[List[int]]]", "'Unknown_thing'", "'1x'", "''",
               "'Foo bar'", "int | None", "typing.List[int]", "List[int][0]", "Final[int]", "Final", "None", "...",
               "Optional[None]", "List[...]", "bytes", "object", "\u00e9", "'\u00e9'", "List['\u00e9']", "3", "a.b",
-              "Optional['Unknown']", "Set[List[int]]"]
+              "Optional['Unknown']", "Set[List[int]]", "Optional[List[int, str]]", "List[List[int, str]]",
+              "List[Optional[int, str]]", "Optional[List[int][0]]", "List[int, ...]",
+              "Optional[List[Optional[List[int]]]]", "List[Set[int]]", "Optional[Set[str]]", "List['Unknown_a', 'Unknown_b']"]
 
 DECORATORS = ["@abstract()", "@abstract.x", "@serialization", "@serialization()", "@serialization(True)",
               "@serialization(with_model_type=1)", "@serialization(with_model_type=True, x=1)",
